@@ -187,6 +187,8 @@ where
             child.hash(&mut hasher);
         }
         let child_hash = hasher.finish() as u32;
+        #[cfg(cstree_verif)]
+        let child_hash = child_hash & crate::verif::hash_mask();
 
         // Green nodes are fully immutable, so it's ok to deduplicate them.
         // This is the same optimization that Roslyn does
